@@ -1,6 +1,6 @@
 # C17 - shared_future: one result for all copies; state lives exactly as long as needed
 import re
-from ..core import norm, relloc, live, calls, evs, Broken, value_origin, Tracer, fmt_trace, rooted, has_back_edge, cond_event
+from ..core import norm, relloc, live, calls, evs, Broken, value_origin, Tracer, fmt_trace, rooted, has_back_edge, cond_event, tests
 from .. import atomic, publish
 from ..rules import *
 
@@ -155,7 +155,7 @@ def charge(ctx, db):
                 bad = bad or ('the tracer is subscribed before its resume function is set', tr)
             reg = None
             for i, it in enumerate(tr[si:]):
-                if it.k == 'branch' and it.cond_ev == tr[si].get('id'):
+                if it.k == 'branch' and (it.cond_ev == tr[si].get('id') or tests(it, tr[si])):
                     reg = it.val; break
             after = [i for i in st if i > si]
             if reg is True:
@@ -167,7 +167,7 @@ def charge(ctx, db):
                         bad = bad or ('the tracer is touched after it was registered', tr)
             elif reg is False:
                 nref += 1
-                if not any(_nullarg(tr[i]) for i in after):
+                if not any(_nullarg(tr[i]) for i in after) and not any(null_store(it, '_ptr') and rooted(it.get('recv') or it.get('path') or (it.get('args') or [{}])[0].get('path') or '', 'this') for it in tr[si + 1:]):
                     bad = bad or ('a refused registration keeps the self-reference (the state never dies)', tr)
             else:
                 bad = bad or ('the result of the subscription is not tested', tr)
@@ -178,9 +178,11 @@ def charge(ctx, db):
     if not lams:
         raise Broken('tracer resume function not found')
     lf = lams[0]
-    st = [e for e in lf.events() if e.k == 'call' and (e.get('recv') or '').endswith('->_ptr') and norm(e.get('callee') or '').endswith('operator=')]
+    # x->_ptr = nullptr;  x->_ptr.reset();  std::exchange(x->_ptr, nullptr) ...  (x may be a local alias of the converted awaiter pointer)
+    st = [e for e in lf.events() if null_store(e, '_ptr')]
+    stores = [e for e in lf.events() if e.k == 'call' and re.search(r'(->|\.)_ptr$', e.get('recv') or '') and norm(e.get('callee') or '').endswith('operator=') and not _nullarg(e)]
     other = [e for e in lf.events() if e.k in ('call',) and not norm(e.get('callee') or '').endswith('operator=') and norm(e.get('callee') or '').startswith('cocls::') and e.k == 'call' and norm(e.get('callee')) != 'cocls::suspend_point::suspend_point']
-    ctx.ob(rid, lf, lf['key'], len(st) == 1 and _nullarg(st[0]) and not other,
+    ctx.ob(rid, lf, lf['key'], len(st) == 1 and not stores and not other,
            'the tracer\'s resume function drops the self-reference and does nothing else', desc='tracer resume function does not just drop the self-reference')
 
 
